@@ -22,6 +22,7 @@ EXPLANATION = (
     "(R2) every site that ends a request (a callback completing the future with a result or an exception, _max_retries_reached) "
     "resets the per-request retry counter; (R3) _ensure_lock re-creates the lock and closes the old transport when the running "
     "loop changed. The number and spacing of transmissions observed on a wire are not decided."
+    ' (R5) inventory of the places that schedule _timeout_mechanism with a delay (both _send_request methods, both partial-response handlers): the delay is self.timeout itself.'
 )
 
 ROLES = ("host", "port", "comm_addr", "timeout", "retries")
@@ -48,6 +49,9 @@ def check(ctx: Ctx, rep: Report):
     r2(ctx, rep)
     r3(ctx, rep)
     r4(ctx, rep)
+    rep.rule("C05.R5", "every wait is the configured one: wherever self._timeout_mechanism is scheduled with a delay, the delay is self.timeout itself", 1)
+    from .proto import timeout_delays
+    timeout_delays(ctx, rep, "C05.R5")
 
 
 def close_transport_cancels_timer(ctx: Ctx, ci) -> bool:
